@@ -33,6 +33,8 @@ SHAPES = {
     'B11d12': (dict(x='bool'), dict(y='bool'), ['x', 'y', "x'", "y'"], ['x', 'y', "x'", "y'"], 1, 2),
     # closed systems (no environment variable) and pure environments
     'B02': (dict(), dict(y='bool', w='bool'), [], ['y', 'w', "y'", "w'"], 1, 1),
+    'B02g2': (dict(), dict(y='bool', w='bool'), [], ['y', 'w', "y'", "w'"], 2, 1),
+    'B02g2h2': (dict(), dict(y='bool', w='bool'), [], ['y', 'w', "y'", "w'"], 2, 2),
     # integers: tables range over the whole bit range (outside the hints too)
     'I11a': (dict(x='bool'), dict(y=(-1, 1)), ['x', 'y', "x'"], ['x', 'y', "x'", "y'"], 1, 1),
     'I11b': (dict(x=(0, 2)), dict(y='bool'), ['x', 'y', "x'"], ['x', 'y', "x'", "y'"], 1, 1),
